@@ -520,6 +520,9 @@ class Command:
                     self.curarg = curarg
                 if add:
                     self.arguments[curarg["name"]] = avalue
+                if "tag" not in curarg["type"]:
+                    # only tags can be given in any order (and repeated)
+                    self.nextargpos = pos + 1
                 break
 
             pos += 1
